@@ -126,6 +126,16 @@ def gen(tier, seed):
                 add("plexany(faulty:%d:%d,faulty:%d:%d)" % (ff, fd, ff + 1, 1 - fd), ch, data, "fault positions plex")
                 add("plexany(plexall(malloc,faulty:%d:%d),b64enc(faulty:%d:0))" % (ff, fd, ff), ch, data, "fault positions nested plex")
                 add("plexall(plexany(faulty:%d:%d,buffer:%d),malloc)" % (ff, fd, max(0, n - 3)), ch, data, "fault positions nested plex")
+    # 3b. hash stages (emit at done): downstream capacity and faults
+    for n in (0, 1, 55, 56, 64, 65, 200):
+        data = bytes(rnd.getrandbits(8) for _ in range(n))
+        for h, hl in (("S1", 20), ("S224", 28), ("S256", 32), ("S384", 48), ("S512", 64)):
+            ch = rand_chunks(rnd, n, 6)
+            for sink in ("malloc", "buffer:%d" % hl, "buffer:%d" % (hl - 1), "buffer:8", "faulty:0:0", "faulty:-1:1",
+                         "b64enc(malloc)", "b64enc(buffer:%d)" % (hl + 2), "plexall(malloc,buffer:%d)" % (hl - 1)):
+                add("hash:%s(%s)" % (h, sink), ch, data, "hash stages")
+            add("plexany(hash:%s(buffer:3),b64enc(malloc))" % h, ch, data, "hash stages")
+            add("b64dec(hash:%s(b64enc(malloc)))" % h, rand_chunks(rnd, len(py_enc(data)), 5), py_enc(data), "hash stages")
     # 4. random shapes
     def rshape(depth, n):
         r = rnd.random()
@@ -153,7 +163,7 @@ def gen(tier, seed):
 
 def ref_eval(shape, data):
     """reference verdict/content for fault-free linear shapes: (verdict, content) or None if not simple"""
-    if "faulty" in shape or "plex" in shape or "hash" in shape or "def(" in shape or "inf(" in shape:
+    if "faulty" in shape or "plex" in shape or "def(" in shape or "inf(" in shape:
         return None
     cur = data
     s = shape
@@ -162,6 +172,11 @@ def ref_eval(shape, data):
         if s.startswith("b64enc("):
             cur = py_enc(cur)
             s = s[7:-1]
+        elif s.startswith("hash:"):
+            import hashlib
+            name, rest = s[5:].split("(", 1)
+            cur = hashlib.new({"S1": "sha1", "S224": "sha224", "S256": "sha256", "S384": "sha384", "S512": "sha512"}[name], cur).digest()
+            s = rest[:-1]
         elif s.startswith("b64dec("):
             d = py_dec(cur)
             if d is None:
